@@ -364,8 +364,217 @@ def check_section_algebra(ctx, db):
     ctx.require('R-ALGEBRA section builders', n, 12)
 
 
+def _ienv(stmts, env):
+    """extend env with the integer locals declared (with evaluable initialisers) in the statement list"""
+    from .C19 import ieval
+    for s in stmts:
+        for v in ([s] if s.k == 'VarDecl' else [x for x in s.c if x is not None and x.k == 'VarDecl'] if s.k == 'DeclStmt' else []):
+            if v.child('init') is None or 'double' in (v.t or '') or 'Vec2' in (v.t or '') or '*' in (v.t or ''):
+                continue
+            try:
+                env[v.n] = ieval(v.child('init'), env)
+            except (KeyError, AnalysisBroken, OverflowError):
+                pass
+    return env
+
+
+def check_hobby_indices(ctx, db):
+    """The Hobby solver treats a closed curve by index arithmetic. Two rules, both by exhaustive evaluation of the
+    index expressions for every count 2..7 (and every rotation):
+    R-INDEX.cyclic   - every wrap-around index (conditional initialiser) in a loop over `i < count` is a cyclic shift
+                       i -> (i + d) mod count, in bounds for every i;
+    R-INDEX.rotation - the four rotated work arrays are filled completely by their memcpy pairs with one common
+                       rotation, and every control point stored back into points[3c+1] / points[3c+2] was computed from
+                       the work-array vertex that is a copy of points[3c] / of the next vertex."""
+    from .C19 import ieval
+    f = db.fn('gdstk::hobby_interpolation')
+    ctx.touch(f)
+    n = 0
+    # --- cyclic shifts
+    for L in f.walk():
+        if L.k != 'ForStmt' or L.child('cond') is None:
+            continue
+        c = _strip_casts(L.child('cond'))
+        if not (c.k == 'BinaryOperator' and c.op == '<' and _strip_casts(c.child('rhs')).k == 'DeclRefExpr' and _strip_casts(c.child('rhs')).n == 'count'):
+            continue
+        iv = _strip_casts(c.child('lhs'))
+        if iv.k != 'DeclRefExpr':
+            continue
+        body = L.child('body')
+        decls = [v for st in (body.c if body is not None else []) if st is not None and st.k == 'DeclStmt' for v in st.c if v is not None and v.k == 'VarDecl' and v.child('init') is not None
+                 and any(x.k == 'ConditionalOperator' for x in v.child('init').walk()) and 'int' in (v.ct or v.t or '') + (v.t or '')]
+        for v in decls:
+            bad = None
+            for count in range(2, 8):
+                shift = None
+                for i in range(count):
+                    env = _ienv([st for st in body.c if st is not None and st.k == 'DeclStmt' and st.id < v.parent.id], {'count': count, iv.n: i})
+                    try:
+                        val = ieval(v.child('init'), env)
+                    except KeyError:
+                        val = None
+                    if val is None:
+                        bad = 'not evaluable'
+                        break
+                    if not (0 <= val < count):
+                        bad = 'for count = %d, %s = %d the index is %d: outside the %d vertices' % (count, iv.n, i, val, count)
+                        break
+                    d = (val - i) % count
+                    if shift is None:
+                        shift = d
+                    elif d != shift:
+                        bad = 'for count = %d the index is not a cyclic shift of %s (offset %d at %s = 0 but %d at %s = %d): a neighbour is skipped or used twice around the closing segment' % (count, iv.n, shift, iv.n, d, iv.n, i)
+                        break
+                if bad:
+                    break
+            if bad == 'not evaluable':
+                continue
+            n += 1
+            ctx.check(bad is None, 'R-INDEX.cyclic', 'hobby_interpolation/%s@%s' % (v.n, v.loc()), v.loc(), 'wrap-around index `%s` is a cyclic shift of `%s` for every count 2..7' % (v.n, iv.n), bad)
+    ctx.require('R-INDEX.cyclic wrap-around indices', n, 5)
+
+    # --- rotation
+    ptr = {p['n'] for p in f.params if '*' in p['t']}
+    copies = {}
+    for c in f.walk():
+        if c.k == 'CallExpr' and c.callee == 'memcpy':
+            d = _strip_casts(c.args[0])
+            base = d if d.k == 'DeclRefExpr' else next((x for x in d.walk() if x.k == 'DeclRefExpr' and '*' in (x.t or '')), None)
+            if base is not None:
+                copies.setdefault(base.n, []).append(c)
+    if len(copies) != 4 or any(len(v) != 2 for v in copies.values()):
+        raise AnalysisBroken('hobby_interpolation: expected four rotated work arrays filled by two memcpy each, found %s' % {k: len(v) for k, v in copies.items()})
+    stores = [a for a in f.walk() if is_assign(a) and a.op == '=' and _strip_casts(a.child('lhs')).k == 'ArraySubscriptExpr' and _strip_casts(_strip_casts(a.child('lhs')).c[0]).n == 'points'
+              and any(x.k == 'DeclRefExpr' and x.n == 'pts' for x in a.child('rhs').walk())]
+    if len(stores) != 2:
+        raise AnalysisBroken('hobby_interpolation: expected two control-point stores from the work array into points[], found %d' % len(stores))
+    loop = next(a for a in stores[0].ancestors() if a.k == 'ForStmt')
+    lv = _strip_casts(_strip_casts(loop.child('cond')).child('lhs')).n
+    bad = {}
+    nenv = 0
+    for count in range(2, 8):
+        for rotate in range(0, count):
+            env0 = {'count': count, 'rotate': rotate, 'points_size': count + 1}
+            for nme in list(copies) + list(ptr):
+                env0[nme] = 0
+            maps = {}
+            for dst, calls in copies.items():
+                m = {}
+                stride = None
+                for c in calls:
+                    sz = next((x.cv for x in c.args[2].walk() if x.k == 'UnaryExprOrTypeTraitExpr'), None)
+                    do, so, nb = ieval(c.args[0], env0), ieval(c.args[1], env0), ieval(c.args[2], env0)
+                    for k in range(nb // sz):
+                        if do + k in m:
+                            bad.setdefault('%s/overlap' % dst, 'count = %d, rotate = %d: element %d of `%s` is written by both copies' % (count, rotate, do + k, dst))
+                        m[do + k] = so + k
+                alloc = next((a for a in f.walk() if is_assign(a) and lvalue_key(a.child('lhs')) is not None and _strip_casts(a.child('lhs')).n == dst and any(x.k == 'CallExpr' and (x.callee or '').endswith('allocate') for x in a.child('rhs').walk())), None)
+                if alloc is None:
+                    raise AnalysisBroken('hobby_interpolation: allocation of %s not found' % dst)
+                ac = next(x for x in alloc.child('rhs').walk() if x.k == 'CallExpr' and (x.callee or '').endswith('allocate'))
+                szs = next((x.cv for x in ac.args[0].walk() if x.k == 'UnaryExprOrTypeTraitExpr'), None)
+                total = ieval(ac.args[0], env0) // szs
+                if sorted(m) != list(range(total)):
+                    bad.setdefault('%s/cover' % dst, 'count = %d, rotate = %d: the copies fill elements %s of `%s` but %d are allocated and read' % (count, rotate, _ranges(sorted(m)), dst, total))
+                maps[dst] = (m, total // (count + 1))
+            # one common rotation
+            for dst, (m, stride) in maps.items():
+                for k in range(count + 1):
+                    want = ((k + rotate) % count) * stride
+                    if m.get(k * stride) != want:
+                        bad.setdefault('%s/rotation' % dst, 'count = %d, rotate = %d: `%s[%d]` is a copy of source element %s, not of element %d (vertex (%d + rotate) mod count)' % (count, rotate, dst, k * stride, m.get(k * stride), want, k))
+            # store-back
+            pm = maps['pts'][0]
+            n_ = count   # points_size - 1
+            for ii in range(n_):
+                env = dict(env0)
+                env[lv] = ii
+                env['n'] = n_
+                _ienv([st for st in loop.child('body').c if st is not None and st.k == 'DeclStmt'], env)
+                for a in stores:
+                    idx = ieval(_strip_casts(a.child('lhs')).c[1], env)
+                    anchor = next(x for x in a.child('rhs').walk() if x.k == 'ArraySubscriptExpr' and _strip_casts(x.c[0]).n == 'pts')
+                    ai = ieval(anchor.c[1], env)
+                    c_, r_ = divmod(idx, 3)
+                    want = 3 * c_ if r_ == 1 else 3 * ((c_ + 1) % count)
+                    nenv += 1
+                    if r_ not in (1, 2) or not (0 <= idx < 3 * count) or pm.get(ai) != want:
+                        bad.setdefault('store@%s' % a.loc(), 'count = %d, rotate = %d, %s = %d: the control point stored in points[%d] is computed from pts[%d], which is a copy of points[%s] - it belongs to the segment at points[%d]' % (count, rotate, lv, ii, idx, ai, pm.get(ai), want))
+    for dst in copies:
+        for what in ('overlap', 'cover', 'rotation'):
+            key = '%s/%s' % (dst, what)
+            ctx.check(key not in bad, 'R-INDEX.rotation', 'hobby_interpolation/%s' % key, copies[dst][0].loc(), 'work array `%s`: %s holds for every count 2..7 and rotation' % (dst, what), bad.get(key))
+    for a in stores:
+        key = 'store@%s' % a.loc()
+        ctx.check(key not in bad, 'R-INDEX.rotation', 'hobby_interpolation/%s' % key, a.loc(), 'control points go back to the segment whose end point they were computed from (un-rotation is the inverse of the rotation)', bad.get(key))
+    ctx.require('R-INDEX.rotation evaluated stores', nenv, 200)
+
+
+def check_elliptical_radii(ctx, db):
+    """R-PAIR.radii: an angle passed through elliptical_angle_transform(a, p, q) parametrises the ellipse with semi-axes
+    (p, q) only. Forward dataflow over the CFG carries the (p, q) of every transform reaching a variable; wherever such
+    an angle is used as `R * cos(angle)` / `R * sin(angle)`, R must be that p / q for every reaching definition."""
+    n = 0
+    for qn in ('gdstk::ellipse', 'gdstk::Curve::arc'):
+        f = db.fn(qn)
+        ctx.touch(f)
+        g = f.cfg
+
+        def tags_of(e, st):
+            out = set()
+            for x in e.walk():
+                if x.k == 'CallExpr' and x.callee == 'gdstk::elliptical_angle_transform':
+                    return {(norm(x.args[1].text()), norm(x.args[2].text()), x.loc())}
+            for x in e.walk():
+                if x.k == 'DeclRefExpr':
+                    k = lvalue_key(x)
+                    out |= {(p, q, l) for (kk, p, q, l) in st if kk == k}
+            return out
+
+        def transfer(node, st):
+            key = rhs = None
+            if node.k == 'VarDecl' and node.child('init') is not None:
+                key, rhs = 'v%d:%s' % (node.d, node.n), node.child('init')
+            elif is_assign(node) and node.op == '=' and _strip_casts(node.child('lhs')).k == 'DeclRefExpr':
+                key, rhs = lvalue_key(node.child('lhs')), node.child('rhs')
+            if key is None:
+                return st
+            t = tags_of(rhs, st)
+            return frozenset({x for x in st if x[0] != key} | {(key, p, q, l) for (p, q, l) in t})
+        ins, _ = g.forward(frozenset(), transfer)
+        for b, st in ins.items():
+            for node in g.elements(g.blocks[b]):
+                if node.k == 'BinaryOperator' and node.op == '*':
+                    for trig, other in ((node.child('rhs'), node.child('lhs')), (node.child('lhs'), node.child('rhs'))):
+                        trig = _strip_casts(trig)
+                        if trig.k == 'CallExpr' and trig.callee in ('cos', 'sin'):
+                            t = tags_of(trig.args[0], st)
+                            if not t:
+                                continue
+                            n += 1
+                            r = norm(other.text())
+                            badt = [(p, q, l) for (p, q, l) in t if r != (p if trig.callee == 'cos' else q)]
+                            ctx.check(not badt, 'R-PAIR.radii', '%s/%s@%s' % (qn.replace('gdstk::', ''), trig.callee, node.loc()), node.loc(), 'the angle was transformed for the ellipse whose %s semi-axis multiplies its %s' % ('x' if trig.callee == 'cos' else 'y', trig.callee),
+                                      '`%s` uses an angle transformed at %s for semi-axes (%s, %s): the elliptical parameter belongs to a different ellipse, the vertex is off the requested start/end direction' % (norm(node.text())[:60], badt[0][2] if badt else '', badt[0][0] if badt else '', badt[0][1] if badt else ''))
+                node_st = st
+                st = transfer(node, st)
+    ctx.require('R-PAIR.radii trig uses of transformed angles', n, 10)
+
+
+def _ranges(xs):
+    out = []
+    for x in xs:
+        if out and out[-1][1] == x - 1:
+            out[-1][1] = x
+        else:
+            out.append([x, x])
+    return ','.join('%d-%d' % (a, b) if a != b else str(a) for a, b in out)
+
+
 def run(ctx):
     db = ctx.db
+    check_hobby_indices(ctx, db)
+    check_elliptical_radii(ctx, db)
     f = db.fn('gdstk::Curve::commands')
     ctx.touch(f)
     n, table = consume.check_commands(ctx, f)
@@ -394,7 +603,7 @@ def run(ctx):
 
 
 MANIFEST = dict(
-    text='Decides structural necessary conditions for curve sections: Curve::commands consumes exactly the operands its guard and advance constants state and agrees letter-by-letter with RobustPath::commands; every section method stores last_ctrl on every path (or delegates unconditionally), and on the relative path the stored control point is absolute (dependence closure reaches the current end point / absolute control polygon); every vertex count from arc_num_points that is used as a divisor is dominated by a clamp to >= 2 (or the n == 1 guard); the four adaptive samplers clamp the parameter step so the last vertex is the requested end point; one generic iteration of cubic, cubic_smooth, quadratic and quadratic_smooth, in relative and absolute mode, hands exactly the documented control points to the flattening routine and carries exactly the documented end/control point to the next section (polynomial identities); the flatness tests compare squared deviations only with the squared tolerance and fillet, ellipse, racetrack, cross and Curve::arc are dimensionally consistent throughout (powers-of-length analysis, ~190 resolved sites: no absolute threshold, no length compared with an area), angle reduction uses a floored modulo; two bounds of the same direction on one variable (fillet radius vs both adjacent edges) are applied independently, never else-chained. Tolerance and finiteness of sampled vertices are not decided.',
+    text='Decides structural necessary conditions for curve sections: Curve::commands consumes exactly the operands its guard and advance constants state and agrees letter-by-letter with RobustPath::commands; every section method stores last_ctrl on every path (or delegates unconditionally), and on the relative path the stored control point is absolute (dependence closure reaches the current end point / absolute control polygon); every vertex count from arc_num_points that is used as a divisor is dominated by a clamp to >= 2 (or the n == 1 guard); the four adaptive samplers clamp the parameter step so the last vertex is the requested end point; one generic iteration of cubic, cubic_smooth, quadratic and quadratic_smooth, in relative and absolute mode, hands exactly the documented control points to the flattening routine and carries exactly the documented end/control point to the next section (polynomial identities); the flatness tests compare squared deviations only with the squared tolerance and fillet, ellipse, racetrack, cross and Curve::arc are dimensionally consistent throughout (powers-of-length analysis, ~190 resolved sites: no absolute threshold, no length compared with an area), angle reduction uses a floored modulo; the wrap-around indices of the Hobby solver are cyclic shifts in bounds, its rotated work arrays are filled completely with one common rotation and control points are stored back to the segment they were computed for (index expressions and memcpy extents evaluated exhaustively for count 2..7 and every rotation); an angle passed through elliptical_angle_transform is only multiplied by the semi-axes it was transformed for (forward dataflow over the CFG); two bounds of the same direction on one variable (fillet radius vs both adjacent edges) are applied independently, never else-chained. Tolerance and finiteness of sampled vertices are not decided.',
     note='Trusted: clang front end, gx, sa rules. `parametric` is exempt from the last_ctrl rule (stated reason in the checker).',
     technique='operand-consumption tables + must-write dataflow over the CFG + dependence closure + clamp dominance + clamp-chain discipline',
     design='§4 C15')
